@@ -62,6 +62,12 @@ def items():
             for act in ACTS + ACTS2:
                 for sch in (None, "rs"):
                     out.append(["fk", cols, name, rc, sch, [list(a) for a in act]])
+    # no referenced column list at all (the referenced table's key): one and two referencing columns
+    for cols in (["a"], ["b", "c"]):
+        for name in (None, "fk_n"):
+            for act in ACTS[:2]:
+                for sch in (None, "rs"):
+                    out.append(["fk", cols, name, [], sch, [list(a) for a in act]])
     # a referenced schema written as a quoted name that contains a dot
     out.append(["fk", ["a"], None, ["x"], '"r.s"', []])
     out.append(["fk", ["b", "c"], "fk_n", ["x", "y"], '"r.s"', [["DELETE", "CASCADE"]]])
@@ -115,7 +121,7 @@ def render_item(it):
         return ("CONSTRAINT %s " % it[2] if it[2] else "") + "UNIQUE (%s)" % ", ".join(it[1])
     if k == "fk":
         _, cols, name, rc, sch, act = it
-        s = ("CONSTRAINT %s " % name if name else "") + "FOREIGN KEY (%s) REFERENCES %so (%s)" % (", ".join(cols), (sch + ".") if sch else "", ", ".join(rc))
+        s = ("CONSTRAINT %s " % name if name else "") + "FOREIGN KEY (%s) REFERENCES %so" % (", ".join(cols), (sch + ".") if sch else "") + (" (%s)" % ", ".join(rc) if rc else "")
         for w, a in act:
             s += " ON %s %s" % (w, a)
         return s
@@ -339,12 +345,13 @@ def check(case, r):
                 e = ent[0]
                 nm = e.get("name") if isinstance(e.get("name"), list) else [e.get("name")]
                 want = dict(name=list(fc), columns=list(rc), table="o", schema=sch, on_delete=od, on_update=ou)
-                got = dict(name=nm, columns=e.get("columns"), table=e.get("table"), schema=e.get("schema"), on_delete=e.get("on_delete"), on_update=e.get("on_update"))
+                gcols = e.get("columns") if rc else [x for x in (e.get("columns") or []) if x is not None]  # none written: [], [None] or None
+                got = dict(name=nm, columns=gcols, table=e.get("table"), schema=e.get("schema"), on_delete=e.get("on_delete"), on_update=e.get("on_update"))
                 if got != want:
                     D.append(diff("constraints.references[%s]" % name, _fk_sym(want, got), want, got))
                 # a named FK may additionally be mirrored on its columns; if so it must agree
             else:
-                for c, r_ in zip(fc, rc):
+                for c, r_ in zip(fc, rc or [None] * len(fc)):
                     fk_cols.add(c)
                     D.extend(_ref_check(cols, c, r_, sch, od, ou))
         if it[0] == "iref":
